@@ -34,7 +34,7 @@
     Reading aid.  [amb_ok a]: every [ord_*] field returns a permutation of its argument.
     [tx_wf]: the keys of a Go map are distinct; the evidence step needs C04's snapshot sanity. *)
 From Coq Require Import List ZArith Bool String Permutation.
-From Paloma Require Import Base.Num Evm.Assign Cons.Quorum Sys.Ambient Sys.AmbientProofs Sys.NodeLocal Sys.NodeLocalProofs.
+From Paloma Require Import Base.Num Evm.Assign Cons.Quorum Sys.Calendar Sys.Ambient Sys.AmbientProofs Sys.NodeLocal Sys.NodeLocalProofs Sys.CalendarProofs.
 From Paloma Require Gen.C08.
 Import ListNotations.
 Open Scope Z_scope.
@@ -196,3 +196,41 @@ Theorem jail_protection_holds :
   exists v, find_val id st = Some v /\ jv_jailed v = false /\ active_count st <> 1 /\ 4 * jv_power v <= active_total st.
 Proof. exact jail_protection. Qed.
 Print Assumptions jail_protection_holds.
+
+(** Round 3.  Calendar arithmetic on the block time.  MsgRegisterLightNodeClient writes a vesting
+    account that ends [VestingMonths] CALENDAR months after the block time.  Calendar arithmetic is done
+    in the zone the time value carries; the block time carries UTC on every node, and the source computes
+    the period from it directly (shape regenerated on every check) — so the step takes nothing from the
+    ambient.  Re-made with time.Unix (process-local zone) the zone would be an input: month-end and
+    daylight-saving witnesses ([Sys/CalendarProofs.v]; replayed on the real msg server by the corpus of
+    harness/c08 in twins running in UTC, Asia/Tokyo and America/New_York). *)
+Theorem vesting_calendar_in_utc :
+  Gen.C08.vesting_period_shape =
+    ["beginTime := sdkCtx.BlockTime()"; "endTime := beginTime.AddDate(0, int(license.VestingMonths), 0)";
+     "end: endTime.Unix()"; "start: beginTime.Unix()"]%string /\
+  (forall a a' s t months, step_amb a s (TxVest t months) = step_amb a' s (TxVest t months)) /\
+  (forall a t months, tz a = Calendar.utc -> vest_end_local a t months = Calendar.vest_end t months) /\
+  (exists a a' t months, amb_ok a /\ amb_ok a' /\ vest_end_local a t months <> vest_end_local a' t months).
+Proof.
+  exact (conj vesting_period_source_shape (conj vest_step_ignores_ambient (conj vest_end_local_utc local_zone_calendar_refuted_lemma))).
+Qed.
+Print Assumptions vesting_calendar_in_utc.
+
+(** [rank_perm_invariant] rests on the comparator being a strict TOTAL order — irreflexive, transitive,
+    and any two different (address, score) pairs are ordered — which is the shape the source has
+    (regenerated on every check; a tolerance / absolute value / threshold is an unknown shape).  It is
+    needed: "scores closer than eps are equal, then the address decides" is not transitive, a chain of
+    near-ties is a cycle, and the sorted result depends on the order in which the map hands out the entries. *)
+Theorem rank_needs_total_order :
+  Gen.C08.rank_comparator =
+    ["slices.SortStableFunc(ranked)"; "if a.score.GT(b.score) return -1"; "if a.score.LT(b.score) return 1";
+     "return strings.Compare(a.address, b.address)"]%string /\
+  ((forall x, before x x = false) /\
+   (forall x y z, before x y = true -> before y z = true -> before x z = true) /\
+   (forall x y, x = y \/ before x y = true \/ before y x = true)) /\
+  (forall x y, before_tol 1 x y = before x y) /\
+  (exists eps l l', Permutation l l' /\ sort_tol eps l <> sort_tol eps l').
+Proof.
+  exact (conj rank_comparator_source_shape (conj rank_comparator_law (conj before_tol_1 tolerance_comparator_refuted_lemma))).
+Qed.
+Print Assumptions rank_needs_total_order.
